@@ -173,6 +173,8 @@ pub struct RoundOut {
     /// map_ref nodes re-evaluated after a period outside the cone whose projection did not change
     pub mapref_reobserved_unchanged: BTreeSet<Key>,
     pub live_observers: usize,
+    /// observer slots whose own handler disallowed them during this round's handler phase
+    pub self_disallowed: Vec<u8>,
 }
 
 #[derive(Clone)]
@@ -283,6 +285,30 @@ impl Model {
         for s in self.subs.iter_mut() {
             if s.slot == slot {
                 s.active = false;
+            }
+        }
+    }
+
+    /// Handlers that disallow their own observer on their first `Changed` (alphabet switch `handler_self_disallow`):
+    /// the handlers of one observer run in token order (ascending or descending, hook H2); the first one that is
+    /// told `Changed` ends the observer's life, so its siblings later in that order get nothing in this round.
+    pub fn apply_self_disallow(&mut self, out: &mut RoundOut, asc: bool) {
+        for slot in 0..self.obs.len() as u8 {
+            let mut subs: Vec<u8> = (0..self.subs.len() as u8).filter(|i| self.subs[*i as usize].slot == slot).collect();
+            if !asc {
+                subs.reverse();
+            }
+            let mut triggered = false;
+            for i in subs {
+                if triggered {
+                    out.notes.remove(&i);
+                    out.optional_invalidated.remove(&i);
+                } else if matches!(out.notes.get(&i), Some(Upd::Changed(_))) {
+                    triggered = true;
+                }
+            }
+            if triggered {
+                out.self_disallowed.push(slot);
             }
         }
     }
